@@ -258,7 +258,8 @@ Definition arg_act (a' : expr) : act :=
 Definition recv_ok (o' : expr) : bool :=
   match o' with
   | Lit _ | Var _ | Tmp _ | CallE _ _ | MCall0 _ _ | MCall1 _ _ _ | CallT0 _ _ | CallT1 _ _ _ | Hook _ _
-  | Par _ | Hoist1 _ _ _ | Hoist2 _ _ _ _ _ | Hoist3 _ _ _ _ _ _ _ | Get _ _ => true
+  | Par _ | Hoist1 _ _ _ | Hoist2 _ _ _ _ _ | Hoist3 _ _ _ _ _ _ _ => true
+  | Get _ k => negb (String.eqb k "prototype")      (* a.b.m() but not X.prototype.m() *)
   | _ => false
   end.
 
@@ -334,6 +335,7 @@ Fixpoint rw (e : expr) (c : nat) : expr * nat :=
       let '(o', c1) := rw o c in
       let '(a', c2) := rw a c1 in
       if instr m && (negb (is_lit o') || lit_ok m) && recv_ok o' then rw_mcall o' m a' c2 else (MCall1 o' m a', c2)
+  | Get o k => let '(o', c1) := rw o c in (Get o' k, c1)       (* a property read: nothing to instrument *)
   | Tpl1 q0 e1 q1 =>
       (* a template with a literal substitution is left alone, and its substitutions are not visited *)
       if is_lit e1 then (e, c) else let '(e', c1) := rw e1 c in rw_tpl1 q0 e' q1 c1
@@ -366,6 +368,7 @@ Fixpoint rw (e : expr) (c : nat) : expr * nat :=
 Fixpoint rw_root (e : expr) : expr :=
   match e with
   | Par x => Par (rw_root x)
+  | Get o k => Get (rw_root o) k
   | Add l r => if plus_on then fst (rw e 0) else Add (rw_root l) (rw_root r)
   | AddAsgV x e1 => if plus_on then fst (rw e 0) else AddAsgV x (rw_root e1)
   | AddAsgM o k e1 => if plus_on then fst (rw e 0) else AddAsgM (rw_root o) k (rw_root e1)
@@ -384,6 +387,7 @@ Fixpoint src (e : expr) : Prop :=
   | AddAsgM o _ e1 => src o /\ src e1
   | MCall0 o _ => src o
   | MCall1 o _ a => src o /\ src a
+  | Get o _ => src o                         (* a property read o.k *)
   | Tpl1 _ e1 _ => src e1
   | Tpl2 _ e1 _ e2 _ => src e1 /\ src e2
   | OptMCall0 o _ => src o
